@@ -92,10 +92,30 @@ BENIGN = [
  ('exp_correction_commuted', R + 'core/cones/expcone.rs', '        η[2] = -z[0] / z[2]; // gradient of ψ', '        η[2] = -(z[0] / z[2]); // gradient of ψ'),
  ('merge_loop_break_flag', 'src/solver/chordal/merge/mod.rs', '            if t.n_cliques == 1 {\n                break;\n            }', '            if 1 == t.n_cliques {\n                break;\n            }'),
  ('refactor_comment_and_let', 'src/qdldl/qdldl.rs', '        self.is_symbolic = false;\n        _factor(', '        self.is_symbolic = false;\n        let _n = self.D.len();\n        _factor('),
+ ('factor_logical_continue', 'src/qdldl/qdldl.rs', None, None),  # handled specially: `if logical_factor { continue; }` ahead of an unindented pivot block
+ ('standard_H_match_peek', 'src/solver/chordal/decomp/augment_standard.rs', '            if patterns_iter.len() != 0 && patterns_iter.peek().unwrap().orig_index == coneidx {\n                assert!(matches!(cone, SupportedConeT::PSDTriangleConeT(_)));\n                decompose_with_sparsity_pattern(\n                    &mut H_I,\n                    &mut cones_new,\n                    patterns_iter.next().unwrap(),\n                    row,\n                );\n            } else {\n                decompose_with_cone(&mut H_I, &mut cones_new, cone, row);\n            }',
+  '            match patterns_iter.peek() {\n                Some(pattern) if pattern.orig_index == coneidx => {\n                    decompose_with_sparsity_pattern(\n                        &mut H_I,\n                        &mut cones_new,\n                        patterns_iter.next().unwrap(),\n                        row,\n                    );\n                }\n                _ => decompose_with_cone(&mut H_I, &mut cones_new, cone, row),\n            }'),
+ ('status_display_name_table', R + 'core/solver.rs', '        write!(f, "{:?}", self)\n', '        let name = match self {\n            SolverStatus::Unsolved => "Unsolved",\n            SolverStatus::Solved => "Solved",\n            SolverStatus::PrimalInfeasible => "PrimalInfeasible",\n            SolverStatus::DualInfeasible => "DualInfeasible",\n            SolverStatus::AlmostSolved => "AlmostSolved",\n            SolverStatus::AlmostPrimalInfeasible => "AlmostPrimalInfeasible",\n            SolverStatus::AlmostDualInfeasible => "AlmostDualInfeasible",\n            SolverStatus::MaxIterations => "MaxIterations",\n            SolverStatus::MaxTime => "MaxTime",\n            SolverStatus::NumericalError => "NumericalError",\n            SolverStatus::InsufficientProgress => "InsufficientProgress",\n        };\n        f.write_str(name)\n'),
+ ('parent_child_clears_reordered', 'src/solver/chordal/merge/parent_child.rs', '        t.snode[ch].clear();\n        t.separators[ch].clear();', '        t.separators[ch].clear();\n        t.snode[ch].clear();'),
+ ('sortperm_len_local', 'src/solver/chordal/merge/clique_graph.rs', '        let slicep = &mut p[0..self.edges.nzval.len()];\n        sortperm_rev(slicep, &self.edges.nzval);', '        let nedges = self.edges.nzval.len();\n        sortperm_rev(&mut p[0..nedges], &self.edges.nzval);'),
 ]
 
 
 def special(name, src):
+    if name == 'factor_logical_continue':
+        a = src.index('        if !logical_factor {\n            // apply dynamic regularization\n            if regularize_enable {\n                let sign = T::from_i8(Dsigns[k]).unwrap();')
+        b = src.index('    } //end for k', a)
+        blk = src[a:b]
+        lines = blk.split('\n')
+        assert lines[0] == '        if !logical_factor {'
+        # drop the opening line and the closing brace of the if, unindent the rest
+        body = lines[1:]
+        while body and body[-1].strip() == '':
+            body.pop()
+        assert body[-1] == '        }', body[-1]
+        body = body[:-1]
+        body = [l[4:] if l.startswith('    ') else l for l in body]
+        return src[:a] + '        if logical_factor {\n            continue;\n        }\n' + '\n'.join(body) + '\n' + src[b:]
     if name == 'solve_iter_renamed':
         import re
         a = src.index('fn solve(&mut self) {')
